@@ -67,7 +67,15 @@ Record facts := {
   f_tsne_kfactor : Z;    (* tsne.hpp: K = (int)(<this> * perplexity) *)
   f_tsne_rowp : sx;      (* *_row_P = malloc(<this> * sizeof(int)) *)
   f_tsne_colp : sx;      (* *_col_P = calloc(<this>, sizeof(int)) *)
-  f_tsne_curp : sx       (* cur_P = malloc(<this> * sizeof(ScalarType))  (K-NN overload) *)
+  f_tsne_curp : sx;      (* cur_P = malloc(<this> * sizeof(ScalarType))  (K-NN overload) *)
+  (* wave 3: calling-context / exception-safety facts read by the same translator *)
+  f_omp_throws : list (string * Z);    (* (file, line) of every `throw` lexically inside an `omp parallel` region and
+                                          not inside a try { } catch (...) of that region: it cannot leave the
+                                          structured block -> std::terminate *)
+  f_omp_orphans : list (string * Z);   (* (file, line) of every work-sharing construct (`omp for`, sections, single)
+                                          that is not lexically inside a parallel region: it binds to the CALLER's team *)
+  f_spe_anneal_div_is_bound : bool     (* spe.hpp: the divisor of `lambda = lambda - lambda / X` is the bound of the
+                                          main loop `for (i = 0; i < X; ++i)` that contains the statement *)
 }.
 
 (* the expressions Shapes_Model.v was written from (/repo HEAD f79b9b7) *)
@@ -90,11 +98,45 @@ Definition ref_facts : facts :=
      f_tsne_kfactor := 3;
      f_tsne_rowp := XAdd (XV VN) (XC 1);
      f_tsne_colp := XMul (XV VN) (XV VK);
-     f_tsne_curp := XSub (XV VN) (XC 1) |}.
+     f_tsne_curp := XSub (XV VN) (XC 1);
+     f_omp_throws := [];
+     f_omp_orphans := [];
+     f_spe_anneal_div_is_bound := true |}.
 
 Definition nonneg (E : senv) : Prop :=
   0 <= s_N E /\ 0 <= s_D E /\ 0 <= s_d E /\ 0 <= s_k E /\ 0 <= s_K E /\ 0 <= s_nu E /\
   0 <= s_j E /\ 0 <= s_kk E /\ 0 <= s_dp E.
+
+Definition is_nil {A : Type} (l : list A) : bool := match l with [] => true | _ => false end.
+
+(* ---------------------------------------------------------------- wave 3: three small models the new facts feed *)
+(* (1) An OpenMP structured block may not be left by an exception.  `fails site` = the throw statement at that site
+   executes on this input.  With a throw statement inside the region the process ends in std::terminate (whatever
+   the number of threads: GCC wraps the region body in a must-not-throw handler). *)
+Inductive region_end := RegionDone | RegionTerminate.
+Definition region_run (throws_inside : list (string * Z)) (fails : string * Z -> bool) : region_end :=
+  if existsb fails throws_inside then RegionTerminate else RegionDone.
+
+(* (2) Iterations of a tapkee work-sharing loop of n iterations that are complete when the calling thread goes on:
+   all n when the loop sits in a parallel region of tapkee's own (its team joins at the end of that region); only
+   the static share of the calling thread when the construct is orphaned and the application calls tapkee from its
+   own team of T threads (the rest of the buffer stays uninitialised in this thread's private output). *)
+Definition ws_done (orphaned : bool) (T n : Z) : Z :=
+  if orphaned && (1 <? T) then (n + T - 1) / T else n.
+
+(* (3) SPE's learning-rate annealing `lambda = lambda - lambda / div`, executed once per iteration of the main loop
+   `for (i = 0; i < bound; ++i)`; None = a non-finite double (x / 0). *)
+Definition anneal_step (div : Z) (lam : Q) : option Q :=
+  if div =? 0 then None else Some (lam - lam / inject_Z div)%Q.
+Fixpoint spe_anneal (iters : nat) (div : Z) (lam : Q) : option Q :=
+  match iters with
+  | O => Some lam
+  | S n => match anneal_step div lam with None => None | Some l => spe_anneal n div l end
+  end.
+Definition spe_lambda_final (bound div : Z) : option Q := spe_anneal (Z.to_nat bound) div 1%Q.
+(* the divisor as the source has it: the loop bound itself, or a different variable whose value is `other` *)
+Definition spe_lambda_src (F : facts) (bound other : Z) : option Q :=
+  spe_lambda_final bound (if f_spe_anneal_div_is_bound F then bound else other).
 
 (* what the model assumes of each expression, for ALL non-negative sizes: the right-hand sides are the
    expressions written in Shapes_Model.v (site numbers in brackets) *)
@@ -118,7 +160,10 @@ Definition facts_agree (F : facts) : Prop :=
      sx_eval E (f_tsne_colp F) = s_N E * s_K E /\                                          (* [327] *)
      sx_eval E (f_tsne_curp F) = s_N E - 1) /\
   f_nb_retry_reclamps F = true /\                                                          (* kdouble *)
-  f_tsne_kfactor F = 3.                                                                    (* c_K, [325] *)
+  f_tsne_kfactor F = 3 /\                                                                  (* c_K, [325] *)
+  f_omp_throws F = [] /\                                                                   (* region_run *)
+  f_omp_orphans F = [] /\                                                                  (* ws_done *)
+  f_spe_anneal_div_is_bound F = true.                                                      (* spe_lambda_final *)
 
 (* executable point-wise comparison of two tables *)
 Definition facts_differ_at (F G : facts) (E : senv) : bool :=
@@ -141,7 +186,10 @@ Definition facts_differ_at (F G : facts) (E : senv) : bool :=
     (sx_eval E (f_tsne_colp F) =? sx_eval E (f_tsne_colp G)) &&
     (sx_eval E (f_tsne_curp F) =? sx_eval E (f_tsne_curp G)) &&
     Bool.eqb (f_nb_retry_reclamps F) (f_nb_retry_reclamps G) &&
-    (f_tsne_kfactor F =? f_tsne_kfactor G)).
+    (f_tsne_kfactor F =? f_tsne_kfactor G) &&
+    Bool.eqb (is_nil (f_omp_throws F)) (is_nil (f_omp_throws G)) &&
+    Bool.eqb (is_nil (f_omp_orphans F)) (is_nil (f_omp_orphans G)) &&
+    Bool.eqb (f_spe_anneal_div_is_bound F) (f_spe_anneal_div_is_bound G)).
 
 (* the sizes of a request, with the loop variables at both ends of their ranges *)
 Definition envs_of (c : cfg) (keff : Z) : list senv :=
